@@ -748,6 +748,24 @@ def _run(ctx):
         if rok:
             ctx.sample({"random_session": rres[rok[0]]["name"], "events": rres[rok[0]]["events"][:40]})
 
+        # --------------------------------------------------------- catch-up race, free running
+        t = time.time()
+        cres = eng.run_harness("TestVerifC04CatchUp",
+                               {"VERIF_C04_CATCHUP": json.dumps({"rounds": 60000 if quick else 600000, "seed": ctx.seed, "par": 6})},
+                               timeout=1500)
+        crounds = 0
+        for c_ in cres:
+            if c_.get("err"):
+                raise vlib.Inconclusive("catch-up race %s: %s" % (c_["name"], c_["err"]))
+            crounds += c_["rounds"]
+            for k_, what in enumerate(c_.get("skipped") or []):
+                if k_ == 0:
+                    ctx.violation("catchup-skips-batch",
+                                  "a resume that takes the search path while the node applies the next batch skips it: %s" % what,
+                                  {"catchup": c_})
+        ctx.cov["catchup_rounds"] = crounds
+        ctx.log("catch-up race: %d resumes against a concurrent Add in %.1fs" % (crounds, time.time() - t))
+
         eng.corroborate()
 
         # --------------------------------------------------------- binding selftest
